@@ -74,6 +74,10 @@ inductive Family where
   | nstr
   | sint (bits : Nat)
   | uint (bits : Nat)
+  /-- a type that unmarshals itself from JSON and YAML (`implementsJSONUnmarshaler` /
+  `implementsYAMLUnmarshaler`): another enum of the package whose generated code already exists
+  when the generator runs; `inner` names that enum -/
+  | self (inner : String)
   | none
   deriving DecidableEq, Repr
 
@@ -377,9 +381,10 @@ Mirrors `extractTraitDescs`, the per-line instance loop, `processDuplicates`,
 switch (99-108), `Marshal*`/`Unmarshal*` (132-355). Current tree = all `Quirks` off; the pinned
 algorithms are the `Quirks` switched on, kept for the witness theorems.
 
-Not modelled: float families, types that bring their own unmarshaler ("native parsing"; a trait
-whose type is an enum generated IN THE SAME RUN is not such a type — its methods do not exist
-yet when the generator inspects it — and falls in its integer family), import aliasing. -/
+Not modelled: float families, import aliasing. Types that bring their own unmarshaler ("native
+parsing") are modelled for enums of the same package generated in an EARLIER run (`Family.self`);
+a trait whose type is an enum generated IN THE SAME RUN is not such a type — its methods do not
+exist yet when the generator inspects it — and falls in its integer family. -/
 
 /-- deviations of the pinned commit from the current tree -/
 structure Quirks where
@@ -451,10 +456,30 @@ def keepRow (q : Quirks) (vs : List Value) (r : TraitRow) : Bool :=
     if q.dropRowsOnlyUnsafe && safe then true
     else !(r.owner.value == primary.value && r.owner.name != primary.name)
 
-/-- `validateParsableTraits`: a parsable trait constant may belong to one value only -/
-def parsableUnique (ts : List TraitDesc) : Bool :=
-  let rows := (ts.filter (·.parsable)).flatMap (·.rows)
-  rows.all (fun r => rows.all (fun r' => !(r.dyn == r'.dyn) || r.owner.name == r'.owner.name))
+/-- constants of these column types are written as bare literals (untyped constants) -/
+def untypedTok (ty : String) : Bool :=
+  ty == "string" || ty == "int" || ty == "bool" || ty == "rune" || ty == "float"
+
+/-- a literal as written in the definition file (strings of the documented shape need no escapes) -/
+def scalarLit : Scalar → String
+  | .str s => "\"" ++ s ++ "\""
+  | .int i => toString i
+  | .bool b => if b then "true" else "false"
+  | .other r => r
+
+/-- the `value` text `validateParsableTraits` compares: `v.Val().ExactString()` for the instance
+taken from the first value's line (the bare value, whatever the column type), `types.ExprString`
+of the expression for every other line (a conversion `T(lit)` in a typed column, the literal in
+an untyped one) -/
+def rowText (ty : String) (isFirst : Bool) (sc : Scalar) : String :=
+  if isFirst || untypedTok ty then scalarLit sc else ty ++ "(" ++ scalarLit sc ++ ")"
+
+/-- `validateParsableTraits`: the TEXT of a parsable trait constant may belong to one value only
+(the check is by text, across all parsable traits, whatever their types) -/
+def parsableUnique (first : Value) (ts : List TraitDesc) : Bool :=
+  let rows := (ts.filter (·.parsable)).flatMap (fun t =>
+    t.rows.map (fun r => (rowText t.ty (r.owner.name == first.name) r.dyn.v, r.owner.name)))
+  rows.all (fun r => rows.all (fun r' => !(r.1 == r'.1) || r.2 == r'.2))
 
 /-- insertion sort of the trait descriptions by name (`sort.Sort(traits)`; names are distinct) -/
 def insertTrait (t : TraitDesc) : List TraitDesc → List TraitDesc
@@ -475,7 +500,7 @@ def genTraits (q : Quirks) (o : Options) (cols : List TraitCol) (vs : List Value
       let ts := (List.range cols.length).zip cols |>.map (fun (j, c) =>
         ({ name := c.name, ty := c.ty, fam := c.fam, parsable := o.parsable.contains c.name,
            rows := (rowsOf vs j c.ty).filter (keepRow q vs) } : TraitDesc))
-      if !parsableUnique ts then .error .parsableNotUnique
+      if !parsableUnique first ts then .error .parsableNotUnique
       else .ok (sortTraits ts)
 
 /-- everything the template renders for one enum type -/
@@ -529,7 +554,7 @@ def genFull (o : Options) (f : FileDef) (t : TypeDecl) : Except GenFailure GenFu
 def zeroOf (ty : String) (fam : Family) (sample : Option Scalar) : Dyn :=
   match fam, sample with
   | .ustr, _ | .nstr, _ => ⟨ty, .str ""⟩
-  | .sint _, _ | .uint _, _ => ⟨ty, .int 0⟩
+  | .sint _, _ | .uint _, _ | .self _, _ => ⟨ty, .int 0⟩
   | .none, some (.bool _) => ⟨ty, .bool false⟩
   | .none, some (.int _) => ⟨ty, .int 0⟩
   | .none, some (.str _) => ⟨ty, .str ""⟩
@@ -647,6 +672,30 @@ def GenFull.unmarshalYAML (q : Quirks) (g : GenFull) (text : String) : Option In
         | some x, false => numericTry q g true x
         | none, true => numericTry q g true 0
         | _, _ => none
+
+/-- the "native parsing" block: for every parsable trait whose type unmarshals itself, let the
+type's own decoder read the document (`dec inner`), then `Parse<T>` of the decoded value -/
+def GenFull.nativeTry (g : GenFull) (dec : String → Option Int) : Option Int :=
+  firstSome ((g.traits.filter (fun t => t.parsable)).map (fun t =>
+    match t.fam with
+    | .self inner =>
+      match dec inner with
+      | some v => g.base.parse ⟨t.ty, .int v⟩
+      | none => none
+    | _ => none))
+
+/-- the whole `UnmarshalJSON`: the string / uint64 / int64 branches, then the native block, which
+hands the document to the `UnmarshalJSON` of each self-unmarshalling trait type (`env`) -/
+def GenFull.unmarshalJSONFull (q : Quirks) (env : String → JDoc → Option Int) (g : GenFull) (doc : JDoc) : Option Int :=
+  match g.unmarshalJSON q doc with
+  | some v => some v
+  | none => g.nativeTry (fun inner => env inner doc)
+
+/-- the whole `UnmarshalYAML` -/
+def GenFull.unmarshalYAMLFull (q : Quirks) (env : String → String → Option Int) (g : GenFull) (text : String) : Option Int :=
+  match g.unmarshalYAML q text with
+  | some v => some v
+  | none => g.nativeTry (fun inner => env inner text)
 
 /-- `MarshalJSON` / `MarshalText` / `MarshalYAML`: all three emit `String()` -/
 def GenFull.marshal (g : GenFull) (e : Int) : String := g.base.string e
